@@ -125,6 +125,27 @@ static void check_keyset(const TFheGateBootstrappingParameterSet *gb, const std:
         if (o2 + 4 <= C.size()) memcpy(&tag2, C.data() + o2, 4);
         if (tag1 != 200 || tag2 != 201) out.viol("cloud:layout:content-tags", J().s("config", cfg).i("ks_tag", tag1).i("bk_tag", tag2));
     }
+    // the masks of the key material in the cloud bytes are pairwise different: two rows with one mask can be subtracted from
+    // each other, which cancels the mask and leaves the difference of their messages, i.e. secret key coefficients, in the clear
+    if (C.size() == want) {
+        std::map<uint64_t, uint64_t> seen; uint64_t dup = 0, first_dup = 0, rowsn = 0;
+        const char *ksb = C.data() + P.size() + K.size() + 12;
+        for (uint64_t r = 0; r < (uint64_t) k * N * t * base; r++) {
+            if (r % base == 0) continue;                                   // h = 0 rows are the (identical) unused zero samples
+            uint64_t h = fnv1a(ksb + r * (n + 1) * 4, 4 * n); rowsn++;
+            auto it = seen.find(h); if (it != seen.end()) { if (!dup) first_dup = r; dup++; } else seen[h] = r;
+        }
+        if (n < 2) dup = 0;                                                // a one-word mask can repeat by chance; not meaningful
+        const char *bkb = ksb - 12 + ks_bytes + 12;
+        std::map<uint64_t, uint64_t> seen2; uint64_t dup2 = 0;
+        for (uint64_t r = 0; r < (uint64_t) n * kpl; r++) for (int q = 0; q < k; q++) {
+            uint64_t h = fnv1a(bkb + (r * (k + 1) + q) * N * 4, 4 * N); rowsn++;
+            if (seen2.count(h)) dup2++; else seen2[h] = r;
+        }
+        out.evaluations += rowsn;
+        if (dup) out.viol("cloud:key-switching-rows-share-a-mask", J().s("config", cfg).u("rows_with_a_repeated_mask", dup).u("first_such_row", first_dup).u("rows", (uint64_t) k * N * t * (base - 1)));
+        if (dup2) out.viol("cloud:bootstrapping-rows-share-a-mask", J().s("config", cfg).u("rows_with_a_repeated_mask", dup2));
+    }
     // strict prefix of the secret export; the remainder is exactly the two key sections
     out.evaluations++;
     if (!(S.size() > C.size() && S.compare(0, C.size(), C) == 0)) out.viol("cloud:not-a-strict-prefix-of-secret-export", J().s("config", cfg).u("cloud", C.size()).u("secret", S.size()));
